@@ -492,6 +492,111 @@ fn storm(case: &Value, err_fd: i32) -> ! {
     std::process::exit(0);
 }
 
+/// Byte-level leg: an underlying writer that implements only `write` (std's default `write_all` on top) and answers
+/// successive `write` calls from a script: accept at most n bytes (a short write), WouldBlock, Interrupted, another
+/// error, or Ok(0).  One producer, every line accepted (capacity >= #lines), the worker free-running, then
+/// drop(guard).  Output: every `write` call (buffer presented, response, bytes accepted), in order.
+///
+/// input : {"mode":"bytes","lossy":true,"lines":["hex",..],"script":[["a",3],["wb"],["int"],["err"],["zero"],..]}
+struct BW {
+    sh: Arc<Mutex<BSt>>,
+}
+struct BSt {
+    script: Vec<(String, usize)>,
+    k: usize,
+    calls: Vec<Value>,
+    flushes: usize,
+    dropped: bool,
+    exited: bool,
+}
+struct BExit(Arc<Mutex<BSt>>);
+impl Drop for BExit {
+    fn drop(&mut self) {
+        if let Ok(mut st) = self.0.lock() {
+            st.exited = true;
+        }
+    }
+}
+thread_local! { static BSENT: RefCell<Option<BExit>> = RefCell::new(None); }
+impl BW {
+    fn note(&self) {
+        BSENT.with(|s| {
+            if s.borrow().is_none() {
+                *s.borrow_mut() = Some(BExit(self.sh.clone()));
+            }
+        });
+    }
+}
+impl Write for BW {
+    fn write(&mut self, buf: &[u8]) -> io::Result<usize> {
+        self.note();
+        let mut st = self.sh.lock().unwrap();
+        let k = st.k;
+        st.k += 1;
+        let (op, n) = st.script.get(k).cloned().unwrap_or(("a".to_string(), usize::MAX));
+        let (resp, res): (&str, io::Result<usize>) = match op.as_str() {
+            "wb" => ("wb", Err(io::Error::new(io::ErrorKind::WouldBlock, "scripted"))),
+            "int" => ("int", Err(io::Error::new(io::ErrorKind::Interrupted, "scripted"))),
+            "err" => ("err", Err(io::Error::new(io::ErrorKind::Other, "scripted"))),
+            "zero" => ("zero", Ok(0)),
+            _ => ("a", Ok(n.max(1).min(buf.len()))),
+        };
+        let acc = match &res { Ok(n) => *n, Err(_) => 0 };
+        let flushes = st.flushes;
+        st.calls.push(json!([hex(buf), resp, acc, flushes]));
+        res
+    }
+    fn flush(&mut self) -> io::Result<()> {
+        self.note();
+        self.sh.lock().unwrap().flushes += 1;
+        Ok(())
+    }
+}
+impl Drop for BW {
+    fn drop(&mut self) {
+        self.note();
+        self.sh.lock().unwrap().dropped = true;
+    }
+}
+
+fn bytes_mode(case: &Value, err_fd: i32) -> ! {
+    let lossy = case["lossy"].as_bool().unwrap_or(true);
+    let lines: Vec<Vec<u8>> = case["lines"].as_array().map(|a| a.iter().map(|x| unhex(x.as_str().unwrap_or(""))).collect()).unwrap_or_default();
+    let script: Vec<(String, usize)> = case["script"].as_array().map(|a| {
+        a.iter().map(|x| (x[0].as_str().unwrap_or("a").to_string(), x[1].as_u64().unwrap_or(u64::MAX) as usize)).collect()
+    }).unwrap_or_default();
+    let bound = Duration::from_millis(case["bound_ms"].as_u64().unwrap_or(20000));
+    let sh = Arc::new(Mutex::new(BSt { script, k: 0, calls: Vec::new(), flushes: 0, dropped: false, exited: false }));
+    let (mut nb, guard) = NonBlockingBuilder::default().buffered_lines_limit(lines.len().max(1)).lossy(lossy).thread_name(WORKER_NAME).finish(BW { sh: sh.clone() });
+    let ec = nb.error_counter();
+    let mut rets: Vec<u8> = Vec::new();
+    for l in &lines {
+        rets.push(match nb.write(l) { Ok(n) if n == l.len() => 1, Ok(_) => 8, Err(_) => 3 });
+    }
+    drop(nb);
+    let t0 = Instant::now();
+    let (tx, rx) = mpsc::channel();
+    thread::spawn(move || {
+        drop(guard);
+        let _ = tx.send(());
+    });
+    let mut problems: Vec<String> = Vec::new();
+    if rx.recv_timeout(bound).is_err() {
+        problems.push(format!("drop(guard) did not return within {:?}", bound));
+    }
+    while !sh.lock().unwrap().exited && t0.elapsed() < bound {
+        thread::sleep(Duration::from_millis(1));
+    }
+    let msg = drain_fd(err_fd);
+    let st = sh.lock().unwrap();
+    let out = json!({"mode": "bytes", "calls": st.calls, "flushes": st.flushes, "writer_dropped": st.dropped, "worker_exited": st.exited,
+                     "rets": rets, "dropped": ec.dropped_lines(), "stderr": msg, "problems": problems});
+    drop(st);
+    println!("{}", out);
+    let _ = io::stdout().flush();
+    std::process::exit(0);
+}
+
 fn main() {
     let mut input = String::new();
     io::stdin().read_to_string(&mut input).expect("stdin");
@@ -510,6 +615,9 @@ fn main() {
 
     if case["mode"].as_str() == Some("storm") {
         storm(&case, err_fd);
+    }
+    if case["mode"].as_str() == Some("bytes") {
+        bytes_mode(&case, err_fd);
     }
     let cap = case["cap"].as_u64().unwrap_or(1) as usize;
     let lossy = case["lossy"].as_bool().unwrap_or(true);
